@@ -49,9 +49,22 @@ def families(tier):
     return fam
 
 
+def deep_rulesets(tier):
+    """Rulesets whose restore walk is deep: one transition with more than a thousand groups of distinct probability (the interpreter's default
+    recursion limit is 1000; real rulesets have A / D lists of this size)."""
+    out = []
+    for n in ((1100,) if tier == 'quick' else (1100, 2500)):
+        tot = n * (n + 1) / 2.0
+        long = [(n - i) / tot for i in range(n)]
+        out.append(({'A': long}, [(1.0, ['A'])]))
+        out.append(({'A': long, 'B': [0.6, 0.4]}, [(0.5, ['A']), (0.3, ['B', 'A']), (0.2, ['B'])]))
+        out.append(({'A': long, 'B': [0.6, 0.4]}, [(0.6, ['A', 'B']), (0.4, ['B'])]))
+    return out
+
+
 def shards(tier):
     return [('mem', name, i, NSHARDS) for name in families(tier) for i in range(NSHARDS)] + \
-           [('sess', i, 16) for i in range(16)]
+           [('sess', i, 16) for i in range(16)] + [('deep', i) for i in range(len(deep_rulesets(tier)))]
 
 
 def bounds(tier):
@@ -113,7 +126,14 @@ def check_resumed(mult, probs, p, stream):
     return msgs[:4]
 
 
-def explore_mem(mods, types, base, acc):
+def deep_nodes(nodes):
+    """History-graph nodes explored on a deep ruleset: the first ones, the last twelve, and 24 spread evenly (every node would be quadratic)."""
+    n = len(nodes)
+    idx = set(range(0, min(n, 3))) | set(range(max(0, n - 12), n)) | set(int(i * (n - 1) / 23.0) for i in range(24))
+    return [nodes[i] for i in sorted(idx)]
+
+
+def explore_mem(mods, types, base, acc, pick=None):
     PcfgGrammar, PcfgQueue = mods
     g = R.mem_grammar(PcfgGrammar, types, base)
     mult = Q.grid_of(types, base)
@@ -128,9 +148,13 @@ def explore_mem(mods, types, base, acc):
     nodes = sorted(set(probs.values()), reverse=True)
     pcount = Counter(probs.values())
     # parents tied with a lower node: the F1 pattern
-    for p in nodes:
+    for p in (pick(nodes) if pick else nodes):
         acc.states += 1
-        Rp = drain(PcfgQueue(g, save_config(p)), 2 * total + 5)
+        try:
+            Rp = drain(PcfgQueue(g, save_config(p)), 2 * total + 5)
+        except Exception as e:
+            fails.append((p, 'crash: restoring / draining the queue raised %r' % (e,)))
+            break
         acc.transitions += len(Rp)
         msgs = check_resumed(mult, probs, p, Rp)
         if pcount[p] > 1:
@@ -323,7 +347,31 @@ def explore_session(td, spec, acc, flags=()):
     return fails
 
 
+def run_deep(shard, tier, acc):
+    tree.use()
+    mods = (tree.imp('lib_guesser.pcfg_grammar').PcfgGrammar, tree.imp('lib_guesser.priority_queue').PcfgQueue)
+    types, base = deep_rulesets(tier)[shard[1]]
+    R.well_formed(types, base)
+    acc.evals += 1
+    import contextlib
+    import io
+    sink = io.StringIO()
+    with contextlib.redirect_stderr(sink), contextlib.redirect_stdout(sink):
+        res = explore_mem(mods, types, base, acc, pick=deep_nodes)
+    if not res:
+        acc.fail({'kind': 'deep', 'index': shard[1]}, 'lost: the uninterrupted run over the deep ruleset %d is not the whole language' % shard[1], sig='lost')
+        return
+    fails, nnodes, ntied = res
+    acc.nontrivial += 1
+    for p, m in fails:
+        acc.fail({'kind': 'deep', 'index': shard[1], 'groups': len(types['A']), 'base': base, 'p': p}, 'deep ruleset (%d groups in one transition), saved max_probability=%r: %s'
+                 % (len(types['A']), p, m), sig=signature(m))
+    acc.sample({'family': 'deep', 'groups': len(types['A']), 'base': base, 'history_graph_nodes': nnodes, 'nodes_explored': len(deep_nodes(list(range(nnodes))))}, cap=1)
+
+
 def run_shard(shard, tier, acc):
+    if shard[0] == 'deep':
+        return run_deep(shard, tier, acc)
     if shard[0] == 'mem':
         run_mem(shard, tier, acc)
     else:
@@ -340,6 +388,11 @@ def replay(case):
         if res and res[0]:
             return '; '.join('p=%r %s' % f for f in res[0][:3])
         return None
+    if case['kind'] == 'deep':
+        from ..runner import Acc
+        acc = Acc()
+        run_deep(('deep', case['index']), 'thorough' if case.get('groups', 0) > 1100 else 'quick', acc)
+        return acc.failures[0]['msg'] if acc.failures else None
     spec = D.fix_spec(case['spec'])
     td = tree.scratch_tree()
     R.write_ruleset(os.path.join(td, 'Rules', 'v'), spec)
